@@ -1196,9 +1196,10 @@ class MeshRegion:
                 )
 
             # calculate curl on x-y grid
+            # Note Bpxy carries the sign of Bp relative to the y-direction and dx the sign
+            # of d(psi), so no additional bpsign factor is needed
             self.curl_bOverB_x = (
                 -2.0
-                * self.bpsign
                 * self.Bpxy
                 * self.Btxy
                 * self.Rxy
@@ -1206,7 +1207,7 @@ class MeshRegion:
                 * self.DDY("#Bxy")
             )
             self.curl_bOverB_y = (
-                -self.bpsign * self.Bpxy / self.hy * self.DDX("#Btxy*#Rxy/#Bxy**2")
+                -self.Bpxy / self.hy * self.DDX("#Btxy*#Rxy/#Bxy**2")
             )
             self.curl_bOverB_z = (
                 self.Bpxy**3 / (self.hy * self.Bxy**2) * self.DDX("#hy/#Bpxy")
